@@ -15,16 +15,6 @@ Inductive case :=
 | KScript (c : scase)
 | KAbrupt (kind : tkind) (first : cses) (est_cb fin_cb : nat) (ended : bool).
 
-Definition abrupt_conf (k : tkind) : sconf :=
-  {| sc_comp := ["none"]; sc_enc := ["none"]; sc_schemes := ["guest"]; sc_kind := k; sc_tls_ok := false; sc_sid := "SID" |}.
-Definition allow_all : oracle := {| o_auth := fun _ _ _ _ => ARole; o_reg := fun f => RNode (100 + f) |}.
-Definition count_ev (p : ev -> bool) (t : list ev) : nat := List.length (filter p t).
-Definition abrupt_model (k : tkind) (first : cses) : nat * nat * bool :=
-  let r := handle_channel s_repaired (abrupt_conf k) allow_all [CSes first; CEof] in
-  (count_ev (fun e => match e with EstCb => true | _ => false end) (rr_trace r),
-   count_ev (fun e => match e with FinCb => true | _ => false end) (rr_trace r),
-   rr_handler_ended r).
-
 Definition check (c : case) : bool :=
   match c with
   | KScript s => c14_check s
